@@ -109,6 +109,29 @@ def lib13Step (s : FState) (l : String) : Option (FState × String) :=
         | _, _ => some false
       | _, _ => none
     pure (s, showCons ok)
+  | ["cstamp", c, p] => do
+    -- a path below path `p`: absent unless `p` is a regular file, in which case the OS error (ENOTDIR) is returned
+    let p ← pathId p
+    match s.get p with
+    | .file _ _ => pure (s, "err")
+    | _ =>
+      let (s', st) ← takeStamp s c "path" PathSt.absent
+      pure ({ s' with stamps := s'.stamps.push st }, s!"s{s'.stamps.size} {showFStamp st}")
+  | ["ccheck", c, p, k] => do
+    let p ← pathId p; let k ← k.toNat?
+    let old ← s.stamps[k]?
+    match s.get p with
+    | .file _ _ => match c, old with
+      | "E", .e _ | "M", .m _ | "H", .h _ => pure (s, "err")
+      | _, _ => none
+    | _ =>
+      let st := PathSt.absent
+      let ok ← match c, old with
+        | "E", .e a => some (existsCheck st a)
+        | "M", .m a => some (modifiedCheck st a)
+        | "H", .h a => match a with | none => some true | some _ => some false
+        | _, _ => none
+      pure (s, showCons ok)
   | ["readafter", c, p] => do
     let p ← pathId p
     let r := openRead (s.get p)
